@@ -19,5 +19,5 @@ if [ "$what" = ocaml ] || [ "$what" = all ]; then
     fi ) || exit 3
 fi
 if [ "$what" = go ] || [ "$what" = all ]; then
-  ( cd go && cp /repo/go.sum . && go build -tags verif -o "$V/build/harness" . && go build -o "$V/build/gmars" github.com/bobertlo/gmars/cmd/gmars )
+  ( cd go && cp /repo/go.sum . && go build -tags verif -o "$V/build/harness" . && go build -o "$V/build/gmars" github.com/bobertlo/gmars/cmd/gmars && { go build -race -tags verif -o "$V/build/harness-race" . 2>/dev/null || echo "note: go build -race unavailable" ; } )
 fi
